@@ -112,8 +112,11 @@ def build_file(content, charset):
         # the charset in force is the attribute at the time of the call, not the constructor argument
         mf = MidiFile(type=content['type'], ticks_per_beat=content['tpb'], charset='cp437')
         mf.charset = charset
+    elif content.get('ctor_tracks'):
+        mf = None
     else:
         mf = MidiFile(type=content['type'], ticks_per_beat=content['tpb'], charset=charset)
+    built = []
     for tr in content['tracks']:
         t = MidiTrack()
         for ev in tr:
@@ -127,7 +130,11 @@ def build_file(content, charset):
                 t.append(MetaMessage('key_signature', key=ev[1], time=ev[2]))
             elif k == 'raw':
                 t.append(ev[1])
-        mf.tracks.append(t)
+        built.append(t)
+    if mf is None:
+        # the tracks are handed to the constructor together with the charset
+        return MidiFile(type=content['type'], ticks_per_beat=content['tpb'], tracks=built, charset=charset)
+    mf.tracks.extend(built)
     return mf
 
 
@@ -191,7 +198,9 @@ class Charset(BaseEngine):
                 else:
                     tr.append(['keysig', pick(rng, ('C', 'F#m', 'Cb')), 0])
             tracks.append(tr)
-        return {'type': 1, 'tpb': pick(rng, (96, 480)), 'tracks': tracks, 'late_charset': rng.random() < 0.2}
+        how = weighted(rng, (('plain', 6), ('late', 2), ('tracks', 2)))
+        return {'type': 1, 'tpb': pick(rng, (96, 480)), 'tracks': tracks, 'late_charset': how == 'late',
+                'ctor_tracks': how == 'tracks'}
 
     def gen(self, prop, seed, idx, tier):
         rng = rng_for(prop, seed, idx, 'plan')
@@ -199,7 +208,8 @@ class Charset(BaseEngine):
         direction = weighted(rng, (('load', 3), ('save', 3), ('chain', 4)))
         plan = {'prop': prop, 'charset': cs, 'content': self.gen_content(rng, cs), 'direction': direction,
                 'via': pick(rng, ('file', 'filename')),
-                'nested': pick(rng, (None, None, None, 'ok', 'fail'))}
+                'nested': pick(rng, (None, None, None, 'ok', 'fail')),
+                'read_cap': pick(rng, (0, 0, 0, 16, 40, 4096))}
         if direction == 'chain':
             calls = []
             pool = [''.join(pick(rng, POOL[:10]) for _ in range(rng.randint(1, 3))) for _ in range(3)]
@@ -231,7 +241,11 @@ class Charset(BaseEngine):
         stats = collections.Counter()
         cov = set()
         viol = None
-        log.ev('plan', plan['charset'], plan['direction'], repr(plan.get('content')), repr(plan.get('calls')))
+        log.ev('plan', plan['charset'], plan['direction'], repr(plan.get('content')), repr(plan.get('calls')),
+               plan.get('read_cap', 0))
+        self._read_cap = plan.get('read_cap', 0)
+        if self._read_cap:
+            stats['fault:read_size_capped'] += 1
         try:
             try:
                 if plan['direction'] == 'chain':
@@ -306,6 +320,9 @@ class Charset(BaseEngine):
 
     def do_load(self, image, cs, disk, via, fault=None, default_charset=False, clip=False):
         disk.files['in.mid'] = bytearray(image)
+        cap = getattr(self, '_read_cap', 0)
+        if cap:
+            fault = dict(fault or {}, read_cap=cap)     # a stream that hands out at most `cap` bytes per read
         kw = {} if default_charset else {'charset': cs}
         if clip:
             kw['clip'] = True
